@@ -28,9 +28,14 @@ Section Fill.
   Hypothesis HL : L <= startIndex.
   Hypothesis Hdt : dd = CUsingDictCtx ->
                    forall h, get dtable h + dictDelta < startIndex /\
-                             good tt dd dictSmall startIndex dictSize (get dtable h + dictDelta).
+                             good3 tt dd dictSmall startIndex dictSize (get dtable h + dictDelta).
   Hypothesis Hu16 : dist_active tt = false ->
                     startIndex + inputSize - MFLIMIT - hist_lo dd startIndex dictSize <= 65535.
+
+  Hypothesis Hs0 : 0 <= startIndex.
+  Hypothesis Hidx : tt = ByU16 ->
+                    mflimitPlusOne startIndex inputSize <= 65536
+                    \/ (dictSmall = true /\ 65536 <= startIndex - dictSize /\ L <= 0).
 
   Let hlo := hist_lo dd startIndex dictSize.
   Let tok_ok := tab_ok tt dd dictSmall startIndex dictSize L.
@@ -38,9 +43,9 @@ Section Fill.
   Let mfl := mflimitPlusOne startIndex inputSize.
   Let mlim := matchlimit startIndex inputSize.
 
-  Let cand_spec := candidate_spec tt dd dictSmall startIndex dictSize dtable dictDelta inputSize Hds L Hdt Hu16.
-  Let t_set := tab_ok_set tt dd dictSmall startIndex dictSize dtable dictDelta inputSize Hds L HL Hdt Hu16.
-  Let off_bound := offset_bound tt dd startIndex dictSize inputSize Hu16.
+  Let cand_spec := candidate_spec tt dd dictSmall startIndex dictSize dtable dictDelta inputSize Hds L Hdt Hu16 Hidx.
+  Let t_set := tab_ok_put tt dd dictSmall startIndex dictSize dtable dictDelta inputSize Hds L HL Hdt Hu16 Hs0 Hidx.
+  Let off_bound := offset_bound tt dd dictSmall startIndex dictSize inputSize L Hu16 Hidx.
 
   Lemma t_mono c c' tab : tok_ok c tab -> c <= c' -> tok_ok c' tab.
   Proof. intros H Hc h. destruct (H h). split; [lia | assumption]. Qed.
@@ -98,12 +103,12 @@ Section Fill.
     cbv zeta. fold mfl.
     destruct (forwardIp + step >? mfl) eqn:E1.
     { cbn [NFill]. exact HF. }
-    assert (Hmode' : tok_ok (forwardIp + 1) (set tab fh forwardIp) \/ olim < c_op s + 12).
+    assert (Hmode' : tok_ok (forwardIp + 1) (set tab fh (idx tt forwardIp)) \/ olim < c_op s + 12).
     { destruct Hmode as [Ht|Hfull]; [left | right; exact Hfull].
-      apply (t_set forwardIp); [exact Ht | lia | lia]. }
+      apply (t_set forwardIp); [exact Ht | lia | lia | fold mfl; lia]. }
     assert (Hrec : NFill (search vrd tt FillOutput dd dictSmall startIndex dictSize dtable dictDelta inputSize olim
                             f s (forwardIp + step) (smn / 2 ^ LZ4_skipTrigger) (smn + 1)
-                            (hashPosition vrd tt (forwardIp + step)) (set tab fh forwardIp))).
+                            (hashPosition vrd tt (forwardIp + step)) (set tab fh (idx tt forwardIp)))).
     { apply IH; try assumption; try lia.
       - destruct Hmode' as [Ht|Hfull]; [left; eapply t_mono; [exact Ht | lia] | right; exact Hfull].
       - assert (0 < 2 ^ LZ4_skipTrigger) by (unfold LZ4_skipTrigger; lia).
@@ -207,10 +212,10 @@ Section Fill.
       forall n,
       n = (if i1 >=? mfl then NLast (mkC i1 i1 o3 (sq :: c_seqs s) tabx (Z.max hw1 o3))
            else
-             let tab := set tabx (hashPosition vrd tt (i1 - 2)) (i1 - 2) in
+             let tab := set tabx (hashPosition vrd tt (i1 - 2)) (idx tt (i1 - 2)) in
              let h := hashPosition vrd tt i1 in
              let '(mi2, low2) := candidate dd startIndex dictSize dtable dictDelta tab h in
-             let tab0 := set tab h i1 in
+             let tab0 := set tab h (idx tt i1) in
              if (if dictSmall then mi2 >=? prefixIdxLimit startIndex dictSize else true)
                 && match tt with
                    | ByU16 => if LZ4_DISTANCE_MAX =? LZ4_DISTANCE_ABSOLUTE_MAX then true else mi2 + LZ4_DISTANCE_MAX >=? i1
@@ -255,9 +260,9 @@ Section Fill.
       destruct (i1 >=? mfl) eqn:E1.
       { split; [|exact I]. cbn [NFill]. unfold FInv. cbn [c_anchor c_seqs c_op c_hw]. apply HCore. lia. }
       cbv zeta.
-      pose proof (cand_spec i1 (set tabx (hashPosition vrd tt (i1 - 2)) (i1 - 2)) (hashPosition vrd tt i1)) as Hcs.
+      pose proof (cand_spec i1 (set tabx (hashPosition vrd tt (i1 - 2)) (idx tt (i1 - 2))) (hashPosition vrd tt i1)) as Hcs.
       destruct (candidate dd startIndex dictSize dtable dictDelta
-                  (set tabx (hashPosition vrd tt (i1 - 2)) (i1 - 2)) (hashPosition vrd tt i1)) as [mi2 low2].
+                  (set tabx (hashPosition vrd tt (i1 - 2)) (idx tt (i1 - 2))) (hashPosition vrd tt i1)) as [mi2 low2].
       assert (Hi1s : startIndex + 1 <= i1) by (unfold i1, MINMATCH; lia).
       match goal with |- NFill (if ?c then _ else _) /\ _ => destruct c eqn:E2 end.
       - (* immediate re-match *)
@@ -265,8 +270,8 @@ Section Fill.
         cbn [NFill c_ip]. split; [|split; lia].
         destruct Hmode as [[Htx Hbig]|Hfull].
         + left.
-          assert (Ht1 : tok_ok i1 (set tabx (hashPosition vrd tt (i1 - 2)) (i1 - 2))).
-          { apply (t_set (Z.max fi i + 1)); [exact Htx | unfold i1; lia | unfold i1, MINMATCH in *; lia]. }
+          assert (Ht1 : tok_ok i1 (set tabx (hashPosition vrd tt (i1 - 2)) (idx tt (i1 - 2)))).
+          { apply (t_set (Z.max fi i + 1)); [exact Htx | unfold i1; lia | unfold i1, MINMATCH in *; lia | fold mfl; lia]. }
           specialize (Hcs Ht1 Hi1s). destruct Hcs as [Hm2 Hlow2].
           apply andb_prop in E2. destruct E2 as [E2 E4]. apply andb_prop in E2. destruct E2 as [E2 E3].
           assert (N1 : ~ (dictSmall = true /\ mi2 < startIndex - dictSize)).
@@ -283,15 +288,15 @@ Section Fill.
           * intros k Hk. apply (read32_eq vrd Hb); [symmetry; apply Z.eqb_eq; exact E4 | lia].
           * split.
             -- replace (Z.max fi i1 + 1) with (i1 + 1) by (unfold i1 in *; lia).
-               apply (t_set i1); [exact Ht1 | lia | lia].
+               apply (t_set i1); [exact Ht1 | lia | lia | fold mfl; lia].
             -- unfold extlen. cbn. lia.
         + right. unfold FPreFull. cbn [c_anchor c_seqs c_op c_hw]. split; [apply HCore; lia | lia].
       - split; [|cbn [c_anchor]; unfold i1, MINMATCH; lia].
         cbn [NFill c_anchor c_ip c_tab c_op]. split; [unfold FInv; cbn [c_anchor c_seqs c_op c_hw]; apply HCore; lia|].
         split; [lia|]. split; [lia|].
         destruct Hmode as [[Htx Hbig]|Hfull]; [left | right; lia].
-        apply (t_set i1); [|lia|lia].
-        apply (t_set (Z.max fi i + 1)); [exact Htx | unfold i1; lia | unfold i1, MINMATCH in *; lia]. }
+        apply (t_set i1); [|lia|lia|fold mfl; lia].
+        apply (t_set (Z.max fi i + 1)); [exact Htx | unfold i1; lia | unfold i1, MINMATCH in *; lia | fold mfl; lia]. }
     pose proof (extlen_nonneg mc) as Hemc0.
     assert (Hemc1 : extlen mc <= (mc + 240) / 255).
     { unfold extlen. destruct (mc <? 15) eqn:B; Z.div_mod_to_equations; lia. }
@@ -474,7 +479,8 @@ Section Fill.
     - apply last_literals_fill. apply HF0.
     - apply main_loop_fill; cbn [c_anchor c_ip c_tab c_op]; [apply HF0 | lia | | | ].
       + unfold mfl, mflimitPlusOne, iend, MFLIMIT, LZ4_minLength in *. lia.
-      + left. apply (t_set (startIndex + 1)); [exact Ht | lia | lia].
+      + left. apply (t_set (startIndex + 1)); [exact Ht | lia | lia|].
+        fold mfl. unfold mfl, mflimitPlusOne, iend, MFLIMIT, LZ4_minLength in *. lia.
       + unfold iend_, iend. lia.
   Qed.
 
